@@ -26,7 +26,12 @@ import (
 )
 
 func init() {
-	core.Register(core.Check{ID: "C06", Level: "model_checking", Run: func(c *core.Ctx) { runC06(c, false); historyPass(c, "C06"); reentrancyPass(c, "C06") }})
+	core.Register(core.Check{ID: "C06", Level: "model_checking", Run: func(c *core.Ctx) {
+		runC06(c, false)
+		historyPass(c, "C06")
+		reentrancyPass(c, "C06")
+		curlVariantPasses(c, "C06")
+	}})
 	core.Register(core.Check{ID: "C06purego", Level: "other", Run: func(c *core.Ctx) { runC06(c, true) }})
 }
 
@@ -486,6 +491,18 @@ func runC06(c *core.Ctx, child bool) {
 				tmp := &c06run{c: c, ref: ref, digest: &bytes.Buffer{}, hist: append(append([]c06op{}, h2...), c06op{Kind: "then, on the instance left behind by a clone"})}
 				tmp.cur = c06inst{sh.real.Clone(), sh.model}
 				tmp.apply(c06op{Kind: "squeeze", Batch: 64, N: 1})
+			}
+			// ... and so must the current instance: the state key below is built from the observable state words and
+			// the model, so anything else the object carries (the sponge direction, counters) would be merged away; a
+			// probe on a clone - one squeezed block of all lanes against the model - keeps the merge honest
+			{
+				tmp := &c06run{c: c, ref: ref, digest: &bytes.Buffer{}, hist: append(append([]c06op{}, h2...), c06op{Kind: "then, on a clone of the current instance"})}
+				tmp.cur = c06inst{r.cur.real.Clone(), r.cur.model}
+				tmp.apply(c06op{Kind: "squeeze", Batch: 64, N: 1})
+				if tmp.failed {
+					cands[i].failed = true
+					return
+				}
 			}
 			cands[i].digest = r.digest.Bytes()
 			cands[i].key = keyOf(r)
